@@ -106,6 +106,9 @@ def h_template(ctx, name, n, proto=None, ports=None):
       sp, dp = ports
       if sp is not None: body[20:22] = [sp >> 8, sp & 255]
       if dp is not None: body[22:24] = [dp >> 8, dp & 255]
+  if ports == (68, 67) and len(body) >= 28 + 240:
+    body[28 + 236:28 + 240] = [0x63, 0x82, 0x53, 0x63]      # DHCP magic cookie, so that the option parser is reached; hlen stays symbolic
+    for k in range(28 + 44, 28 + 236): body[k] = 0           # sname / file: concrete zeros (only copied)
   if name == 'lldp4' and len(body) >= 18:
     body[0:2] = [2, 7]; body[9:11] = [4, 3]; body[14:16] = [6, 2]
   if name == 'ipv6' and len(body) >= 40:
@@ -129,12 +132,12 @@ def obligations(tier):
   for proto, lens in ((1, [34, 38, 42, 46, 62]), (6, [34, 54, 56] + ([58, 62] if thorough else [])), (17, [34, 42, 46]), (2, [34, 42, 46]),
                       (47, [34, 38, 42, 46]), (99, [34, 38])):
     for n in lens: t.append(dict(name='ip', n=n, proto=proto))
-  for ports, lens in (((None, 53), [46, 54, 55] + ([58] if thorough else [])), ((68, 67), [50, 54]), ((None, 520), [46, 50, 66]),
+  for ports, lens in (((None, 53), [46, 54] + ([55, 58] if thorough else [])), ((68, 67), [50, 54, 282, 286] + ([288] if thorough else [])), ((None, 520), [46, 50, 66]),
                       ((None, 4789), [42, 50] + ([54, 64] if thorough else [])), ((5353, None), [54] if thorough else [46])):
     for n in lens: t.append(dict(name='ip', n=n, proto=17, ports=ports))
   for proto, lens in ((58, [54, 58, 62, 78]), (17, [54, 62]), (6, [54, 74]), (0, [54, 62, 70]), (43, [62]), (44, [62]), (60, [62])):
     for n in lens: t.append(dict(name='ipv6', n=n, proto=proto))
-  if not thorough: t = [c for i, c in enumerate(t) if c['n'] <= 58]
+  if not thorough: t = [c for i, c in enumerate(t) if c['n'] <= 58 or c.get('ports') == (68, 67)]
   BOUNDS[tier] = dict(random_frame_lengths=rnd, templates=len(t), template_note="dispatch fields fixed, all other bytes (incl. every length/offset field) symbolic, "
                       "frame length = truncation point")
   return [
